@@ -240,56 +240,82 @@ theorem repeatWindows_mul (ws : List Window) (n m : Nat) (d : Rat) :
     rw [this]; grind
 
 
-/-- `denote` of a repetition whose count evaluates to the natural number `n`, constraints fulfilled -/
-theorem denote_rep_nat (body : PT) (count : Expr) (cons : List Expr) (σ : Scope) (mm : List (MName × Option MName))
-    (cm : List (Chan × Option Chan)) (n : Nat) (hcons : validateCons cons σ.look = .ok ())
-    (hc : σ.eval count = .ok (n : Rat)) :
+/-- `denote` of a repetition whose count evaluates to the integer `z`, constraints fulfilled -/
+theorem denote_rep_int (body : PT) (count : Expr) (cons : List Expr) (σ : Scope) (mm : List (MName × Option MName))
+    (cm : List (Chan × Option Chan)) (z : Int) (hcons : validateCons cons σ.look = .ok ())
+    (hc : σ.eval count = .ok (z : Rat)) :
     denote (.rep none body count [] cons) σ mm cm =
-      (if n = 0 then pure Pulse.empty else do
+      (if z ≤ 0 then pure Pulse.empty else do
         let b ← denote body σ mm cm
         if b.isEmpty then pure Pulse.empty else
-        pure { dur := b.dur * n, chans := b.chans.map (fun (c, pl) => (c, PL.replicate n pl)),
-               windows := repeatWindows b.windows n b.dur }) := by
+        pure { dur := b.dur * z.toNat, chans := b.chans.map (fun (c, pl) => (c, PL.replicate z.toNat pl)),
+               windows := repeatWindows b.windows z.toNat b.dur }) := by
   rw [denote]
-  have hci : checkedInt ((n : Rat)) = some (n : Int) := by
-    have := checkedInt_intCast (n : Int)
-    have e : (((n : Int) : Rat)) = (n : Rat) := rfl
-    rw [e] at this
-    exact this
-  simp only [hcons, hc, bind, Except.bind, hci]
-  by_cases h0 : n = 0
-  · subst h0; simp
-  · have hpos : ¬ ((n : Int) ≤ 0) := by omega
-    simp only [hpos, h0, if_false, getMeas, List.foldlM_nil, pure, Except.pure, List.nil_append, Int.toNat_natCast]
+  simp only [hcons, hc, bind, Except.bind, checkedInt_intCast]
+  by_cases h0 : z ≤ 0
+  · simp [h0]
+  · simp only [h0, if_false, getMeas, List.foldlM_nil, pure, Except.pure, List.nil_append]
 
+theorem eval_clamped_mul (σ : Scope) (c k : Expr) (n m : Int) (hc : σ.eval c = .ok (n : Rat)) (hk : σ.eval k = .ok (m : Rat)) :
+    σ.eval (.mul (.max (.lit 0) c) (.max (.lit 0) k)) = .ok (((max 0 n * max 0 m : Int)) : Rat) := by
+  simp only [Scope.eval, Expr.eval] at hc hk ⊢
+  simp only [hc, hk, bind, Except.bind, pure, Except.pure]
+  congr 1
+  have e1 : (if (0 : Rat) ≤ (n : Rat) then (n : Rat) else 0) = ((max 0 n : Int) : Rat) := by
+    by_cases h : 0 ≤ n
+    · have : (0 : Rat) ≤ (n : Rat) := by exact_mod_cast h
+      simp [this, Int.max_eq_right h]
+    · have h' : n ≤ 0 := by omega
+      have : ¬ (0 : Rat) ≤ (n : Rat) := by
+        intro hh; have : (0 : Int) ≤ n := by exact_mod_cast hh
+        omega
+      simp [this, Int.max_eq_left h']
+  have e2 : (if (0 : Rat) ≤ (m : Rat) then (m : Rat) else 0) = ((max 0 m : Int) : Rat) := by
+    by_cases h : 0 ≤ m
+    · have : (0 : Rat) ≤ (m : Rat) := by exact_mod_cast h
+      simp [this, Int.max_eq_right h]
+    · have h' : m ≤ 0 := by omega
+      have : ¬ (0 : Rat) ≤ (m : Rat) := by
+        intro hh; have : (0 : Int) ≤ m := by exact_mod_cast hh
+        omega
+      simp [this, Int.max_eq_left h']
+  rw [e1, e2, Rat.intCast_mul]
 
-/-- `RepetitionPT(body, c, constraints).with_repetition(k)` (the merged template with count `c * k`) denotes
-exactly the pulse of the explicit nesting `RepetitionPT(RepetitionPT(body, c, constraints), k)` whenever both
-counts evaluate to natural numbers and the constraints hold (PF-C05d: false for two negative counts; with violated
-constraints and `k = 0` the explicit nesting does not even look at them). -/
+/-- `RepetitionPT(body, c, constraints).with_repetition(k)` (the merged template with count
+`Max(0, c) * Max(0, k)`) denotes exactly the pulse of the explicit nesting
+`RepetitionPT(RepetitionPT(body, c, constraints), k)` whenever both counts evaluate to integers — of ANY sign,
+PF-C05d repaired — and the constraints hold (with violated constraints and `k ≤ 0` the explicit nesting does not
+even look at them; a non-integer count is rejected by the explicit nesting only). -/
 theorem withRepetition_merge_denote (body : PT) (c k : Expr) (cons : List Expr) (σ : Scope)
-    (mm : List (MName × Option MName)) (cm : List (Chan × Option Chan)) (n m : Nat)
+    (mm : List (MName × Option MName)) (cm : List (Chan × Option Chan)) (n m : Int)
     (hcons : validateCons cons σ.look = .ok ())
     (hc : σ.eval c = .ok (n : Rat)) (hk : σ.eval k = .ok (m : Rat)) :
     denote (withRepetition (.rep none body c [] cons) k) σ mm cm =
       denote (withRepetitionExplicit (.rep none body c [] cons) k) σ mm cm := by
-  have hck : σ.eval (.mul c k) = .ok ((n * m : Nat) : Rat) := by
-    simp only [Scope.eval, Expr.eval] at hc hk ⊢
-    simp only [hc, hk, bind, Except.bind, pure, Except.pure]
-    congr 1
-    simp [Rat.natCast_mul]
-  simp only [withRepetition, withRepetitionExplicit]
+  have hck := eval_clamped_mul σ c k n m hc hk
   have hnil : validateCons [] σ.look = .ok () := rfl
-  rw [denote_rep_nat body (.mul c k) cons σ mm cm (n * m) hcons hck,
-    denote_rep_nat (.rep none body c [] cons) k [] σ mm cm m hnil hk,
-    denote_rep_nat body c cons σ mm cm n hcons hc]
-  by_cases hm : m = 0
-  · subst hm; simp
-  · by_cases hn : n = 0
-    · subst hn
-      simp [hm, bind, Except.bind, pure, Except.pure, Pulse.isEmpty, Pulse.empty]
-    · have hnm : n * m ≠ 0 := Nat.mul_ne_zero hn hm
-      simp only [hm, hn, hnm, if_false]
+  simp only [withRepetition, withRepetitionExplicit]
+  rw [denote_rep_int body _ cons σ mm cm _ hcons hck,
+    denote_rep_int (.rep none body c [] cons) k [] σ mm cm m hnil hk,
+    denote_rep_int body c cons σ mm cm n hcons hc]
+  by_cases hm : m ≤ 0
+  · have : max 0 n * max 0 m ≤ 0 := by rw [Int.max_eq_left hm]; simp
+    simp [hm, this]
+  · by_cases hn : n ≤ 0
+    · have : max 0 n * max 0 m ≤ 0 := by rw [Int.max_eq_left hn]; simp
+      simp [hm, hn, this, bind, Except.bind, pure, Except.pure, Pulse.isEmpty, Pulse.empty]
+    · have e1 : max 0 n = n := Int.max_eq_right (by omega)
+      have e2 : max 0 m = m := Int.max_eq_right (by omega)
+      have hpos : ¬ (n * m ≤ 0) := by
+        have : 0 < n * m := Int.mul_pos (by omega) (by omega)
+        omega
+      rw [e1, e2]
+      simp only [hm, hn, hpos, if_false]
+      obtain ⟨N, rfl⟩ := Int.eq_ofNat_of_zero_le (show 0 ≤ n by omega)
+      obtain ⟨M, rfl⟩ := Int.eq_ofNat_of_zero_le (show 0 ≤ m by omega)
+      have t1 : ((N : Int) * (M : Int)).toNat = N * M := by
+        rw [← Int.natCast_mul]; exact Int.toNat_natCast _
+      simp only [t1, Int.toNat_natCast]
       cases hb : denote body σ mm cm with
       | error e => simp [bind, Except.bind]
       | ok b =>
@@ -297,15 +323,14 @@ theorem withRepetition_merge_denote (body : PT) (c k : Expr) (cons : List Expr) 
         by_cases hch : b.chans.isEmpty = true
         · simp [hch, Pulse.empty]
         · have hch' : b.chans.isEmpty = false := by simpa using hch
-          have hmap : (List.map (fun (x : Chan × PL) => (x.1, PL.replicate n x.2)) b.chans).isEmpty = false := by
+          have hmap : (List.map (fun (x : Chan × PL) => (x.1, PL.replicate N x.2)) b.chans).isEmpty = false := by
             rw [List.isEmpty_map]; exact hch'
           simp only [hch', Bool.false_eq_true, if_false, hmap]
-          have e1 : b.dur * ((n * m : Nat) : Rat) = b.dur * (n : Rat) * (m : Rat) := by
-            have : ((n * m : Nat) : Rat) = (n : Rat) * (m : Rat) := by simp [Rat.natCast_mul]
+          have e3 : b.dur * ((N * M : Nat) : Rat) = b.dur * (N : Rat) * (M : Rat) := by
+            have : ((N * M : Nat) : Rat) = (N : Rat) * (M : Rat) := by simp [Rat.natCast_mul]
             rw [this]; grind
-          rw [e1, ← repeatWindows_mul b.windows n m b.dur]
+          rw [e3, ← repeatWindows_mul b.windows N M b.dur]
           simp only [PL_replicate_mul, List.map_map]
           rfl
-
 
 end QP.C05
